@@ -175,13 +175,15 @@ Definition qquad (x : list Q) : option Q := Some (fold_right (fun a s => a * a +
 Definition qP : nmparams NumQ := mkP NumQ (1 # 20) (1 # 4000) 1 2 (1 # 2) (1 # 2) (1 # 10) (1 # 10).
 
 Example C08_nm_run_nonvacuous :
-  exists r, nm_run NumQ qP qquad (fun _ => isort NumQ) [1; 2] 6%nat 100%nat = Some r /\ r_iter NumQ r = 6%nat /\ r_warn NumQ r = 2%nat.
-Proof. eexists. split; [vm_compute; reflexivity|]. split; reflexivity. Qed.
+  option_map (fun r => (r_iter NumQ r, r_calls NumQ r, r_warn NumQ r, length (r_trace NumQ r)))
+             (nm_run NumQ qP qquad (fun _ => isort NumQ) [1; 2] 4%nat 100%nat) = Some (4%nat, 9%nat, 2%nat, 4%nat).
+Proof. vm_compute. reflexivity. Qed.
 
 Example C08_powell_run_nonvacuous :
-  exists r, powell_run NumQ qquad (1 # 10000) (1 # 100000000) true [1; 1] [[1; 0]; [0; 1]] 5%nat 100%nat
-              [(-1, 1, 4%nat); (-1, 0, 4%nat); (0, 0, 3%nat); (0, 0, 3%nat)] = Some r /\ pr_iter NumQ r = 2%nat.
-Proof. eexists. split; [vm_compute; reflexivity|reflexivity]. Qed.
+  option_map (fun r => (pr_iter NumQ r, pr_calls NumQ r, pr_warn NumQ r))
+    (powell_run NumQ qquad (1 # 10000) (1 # 100000000) true [1; 1] [[1; 0]; [0; 1]] 5%nat 100%nat
+                [(-1, 1, 4%nat); (-1, 0, 4%nat); (0, 0, 3%nat); (0, 0, 3%nat)]) = Some (2%nat, 16%nat, 0%nat).
+Proof. vm_compute. reflexivity. Qed.
 
 Example C08_de_trial_nonvacuous :
   trial NumQ Rand1Exp [[0;0;0]; [1;1;1]; [2;4;8]; [3;3;3]]%Q [0;0;0]%Q 0%nat (1#2)%Q (1#2)%Q [1;2;3]%nat 2%nat [(1#4); (1#4); (3#4)]%Q
